@@ -69,7 +69,13 @@ def _run(case, ctx, sim):
     prof = ExecutionProfile(load_balancing_policy=U.fixed_plan_policy(), row_factory=factory,
                             retry_policy=F.scripted_policy([["retry", None]] * 8, rlog), request_timeout=None,
                             speculative_execution_policy=ConstantSpeculativeExecutionPolicy(0.0, 16) if slow else None)
-    cluster, session, nodes = F.build(sim, 2 if slow else 1, prof)
+    warm = case.get("warm")
+    # 4 stream ids per connection + 0-3 warm-up requests: page requests travel on every stream id, 0 included
+    cluster, session, nodes = F.build(sim, 2 if slow else 1, prof, max_in_flight=4 if warm is not None else None)
+    with ctx.driver(["C18.warmup"]):
+        F.warm_up(sim, session, cluster, nodes, warm or 0)
+    if ctx._failures:
+        return
 
     # ---- the server's truth
     pages, n = [], 0
@@ -499,12 +505,13 @@ def _cases(chunk):
             total = sum(seq)
             ks = sorted(set([1, max(1, total - 1), total + 1]))
         for k in ks:
-            yield {"sizes": seq, "pattern": p, "k": k, "factory": "named", "flaky": [], "slow": [],
+            yield {"warm": (sum(seq) + len(seq) + k) % 4, "sizes": seq, "pattern": p, "k": k, "factory": "named", "flaky": [], "slow": [],
                    "fetch_size": 2, "tape": [], "gran": "blocking"}
 
 
 def s_case(gran):
     return st.fixed_dictionaries({
+        "warm": st.sampled_from([0, 1, 2, 3]),
         "sizes": st.lists(st.sampled_from([0, 0, 1, 2, 3, 4]), min_size=1, max_size=6),
         "pattern": st.sampled_from(PATTERNS),
         "k": st.integers(0, 8),
